@@ -412,6 +412,8 @@ func checkC03(c *Ctx) {
 		why := ""
 		if demoteThenReturn(b) {
 			why = "after a demotion"
+		} else if hasEvent(gs, "passed-may-demote") {
+			why = "after a demotion inside the function whose result is tested"
 		} else if m.claimLit(gs, false) {
 			why = "claim is false"
 		} else {
